@@ -4,13 +4,13 @@
 EXTENDS Idempotency, TraceBase
 TInit == TLCSet(7, 0) /\ Init /\ l = 1 /\ silent = 0
 P == Cur.p
-TStart == IsEv("start") /\ Start(P, Cur.key, Cur.herr, Cur.fault) /\ Consume
+TStart == IsEv("start") /\ Start(P, Cur.key, Cur.herr, Cur.fault, Cur.byp) /\ Consume
 \* a lookup: present iff something is recorded for the key
 TGet == IsEv("get") /\ loc[P].key = Cur.key /\ (FastCheck(P) \/ ReCheck(P)) /\ (Cur.present <=> store[Cur.key] # 0) /\ Consume
 TGetFail == IsEv("getfail") /\ (FastFails(P) \/ ReFails(P)) /\ Consume
 TLock == IsEv("lock") /\ LockAcq(P) /\ loc[P].key = Cur.key /\ Consume
 TLockFail == IsEv("lockfail") /\ LockFails(P) /\ Consume
-THandler == IsEv("handler") /\ Execute(P) /\ Consume
+THandler == IsEv("handler") /\ (Execute(P) \/ Bypass(P)) /\ Consume
 TSet == IsEv("set") /\ Record(P) /\ loc[P].key = Cur.key /\ Consume
 TUnlock == IsEv("unlock") /\ Unlock(P) /\ loc[P].key = Cur.key /\ Consume
 \* what the client got: an error, the response of its own execution, or the recorded response of the key's execution
